@@ -10,7 +10,9 @@ Open Scope Z_scope.
 Ltac good_step :=
   first
     [ apply good_ret | apply good_fail | apply good_get_sz
-    | apply good_read_ty | apply good_read_int | apply good_readBool
+    | apply good_read_ty | apply good_read_int | apply good_readBool | apply good_readVarInt
+    | apply good_readNewBytes | apply good_guard_short | apply good_try_short
+    | apply good_readBytesWith; intros ?
     | apply good_readString | apply good_readBytes
     | apply good_discardString | apply good_discardBytes | apply good_discardN
     | apply good_expectZeroSize | apply good_readArrayWith | apply good_rep | apply good_pmap
@@ -30,8 +32,32 @@ Proof.
     expect_one, aborted_txs, check_msgset_size, readArrayLen.
   good.
 Qed.
+Lemma good_next_header : good next_header.
+Proof. unfold next_header. good. Qed.
 Lemma good_msg_header : good msg_header.
-Proof. unfold msg_header. good. Qed.
+Proof. unfold msg_header. apply good_bind; [apply good_next_header|]. intros m. apply good_ret. Qed.
+Lemma good_read_one K V (key : Z -> P K) (val : Z -> P V) min m :
+  (forall n, good (key n)) -> (forall n, good (val n)) -> good (read_one key val min m).
+Proof.
+  intros Hk Hv. unfold read_one, read_header, read_v1, read_v2, record_header.
+  repeat first [ apply Hk | apply Hv | apply good_next_header | good_step ].
+Qed.
+Lemma good_read_key_cb n : good (read_key_cb n).
+Proof. unfold read_key_cb. good. Qed.
+Lemma good_read_val_cb c n : good (read_val_cb c n).
+Proof. unfold read_val_cb. good. Qed.
+Lemma good_run_acts acts : forall m boff outs, good (run_acts acts m boff outs).
+Proof.
+  induction acts as [|a rest IH]; intros m boff outs; cbn [run_acts]; [apply good_ret|].
+  destruct (a <? 0).
+  - apply good_bind.
+    + apply good_try_short. apply good_read_one; intros; apply good_readNewBytes.
+    + intros [[[[m' off] k] v]|]; [apply IH|apply good_ret].
+  - apply good_bind.
+    + apply good_try_short. apply good_read_one; intros; [apply good_read_key_cb|apply good_read_val_cb].
+    + intros [[[[m' off] k] [n b]]|]; [|apply good_ret].
+      destruct (a <? n); [apply good_ret|apply IH].
+Qed.
 Lemma good_discard_remaining : good discard_remaining.
 Proof. unfold discard_remaining. good. Qed.
 Lemma good_fetch_read v off : good (fetch_read v off).
@@ -42,6 +68,15 @@ Proof.
   - apply good_bind; [apply good_msg_header|]. intros _.
     apply good_bind; [apply good_discard_remaining|]. intros _. apply good_ret.
 Qed.
+Lemma good_fetch_reads v off acts : good (fetch_reads v off acts).
+Proof.
+  unfold fetch_reads. apply good_bind; [apply good_skipRemaining; apply good_fetch_header|].
+  intros h. destruct (snd h =? off).
+  - apply good_bind; [apply good_discard_remaining|]. intros _. destruct acts; [apply good_ret|apply good_fail].
+  - apply good_bind; [apply good_next_header|]. intros m.
+    apply good_bind; [apply good_run_acts|]. intros r.
+    apply good_bind; [apply good_discard_remaining|]. intros _. apply good_ret.
+Qed.
 Lemma good_op_read a v off : good (op_read a v off).
 Proof.
   destruct a; cbn [op_read]; try (apply good_expectZeroSize; apply good_read_ty).
@@ -49,13 +84,14 @@ Proof.
   - apply good_fetch_read.
   - apply good_listoffsets_read.
   - apply good_apiversions_read.
+  - apply good_fetch_reads.
 Qed.
 
 (* ---- every response reader is [safe] ---- *)
 Ltac safe_step :=
   first
     [ apply safe_ret | apply safe_fail; reflexivity | apply safe_get_sz
-    | apply safe_read_ty | apply safe_read_int
+    | apply safe_read_ty | apply safe_read_int | apply safe_readVarInt | apply safe_guard_short | apply safe_try_short
     | apply safe_lenprefixed; intros ?
     | apply safe_discard_cb | apply safe_discardN | apply safe_readNewBytes
     | apply safe_expectZeroSize | apply safe_skipRemaining | apply safe_readArrayWith
@@ -64,6 +100,34 @@ Ltac safe_step :=
     | match goal with |- safe (if ?b then _ else _) => destruct b end ].
 Ltac safe := repeat safe_step.
 
+Lemma safe_next_header : safe next_header.
+Proof. unfold next_header, readInt8, readInt16, readInt32, readInt64. safe. Qed.
+Lemma safe_readBytesWith A (cb : Z -> P A) : (forall n, safe (cb n)) -> safe (readBytesWith cb).
+Proof. intros H. unfold readBytesWith, readArrayLen, readInt32. apply safe_lenprefixed. exact H. Qed.
+Lemma safe_read_one K V (key : Z -> P K) (val : Z -> P V) min m :
+  (forall n, safe (key n)) -> (forall n, safe (val n)) -> safe (read_one key val min m).
+Proof.
+  intros Hk Hv. unfold read_one, read_header, read_v1, read_v2, record_header, readInt8.
+  repeat first [ apply Hk | apply Hv | apply safe_next_header | apply safe_readBytesWith; intros ? | safe_step ].
+Qed.
+Lemma safe_read_key_cb n : safe (read_key_cb n).
+Proof. unfold read_key_cb. safe. Qed.
+Lemma safe_read_val_cb c n : safe (read_val_cb c n).
+Proof. unfold read_val_cb. safe. Qed.
+Lemma safe_discard_remaining : safe discard_remaining.
+Proof. unfold discard_remaining. safe. Qed.
+Lemma safe_run_acts acts : forall m boff outs, safe (run_acts acts m boff outs).
+Proof.
+  induction acts as [|a rest IH]; intros m boff outs; cbn [run_acts]; [apply safe_ret|].
+  destruct (a <? 0).
+  - apply safe_bind.
+    + apply safe_try_short. apply safe_read_one; intros; apply safe_readNewBytes.
+    + intros [[[[m' off] k] v]|]; [apply IH|apply safe_ret].
+  - apply safe_bind.
+    + apply safe_try_short. apply safe_read_one; intros; [apply safe_read_key_cb|apply safe_read_val_cb].
+    + intros [[[[m' off] k] [n b]]|]; [|apply safe_ret].
+      destruct (a <? n); [apply safe_ret|apply IH].
+Qed.
 Lemma safe_op_read a v off : safe (op_read a v off).
 Proof.
   destruct a; cbn [op_read]; try (apply safe_expectZeroSize; apply safe_read_ty).
@@ -74,6 +138,17 @@ Proof.
     safe.
   - unfold listoffsets_read, discardString, readStringWith, readInt16. safe.
   - unfold apiversions_read, readInt16, readInt32. safe.
+  - unfold fetch_reads. apply safe_bind.
+    + unfold fetch_header, fetch_header_v10, fetch_header_v5, fetch_header_v2,
+        fetch_partition_v5, expect_one, aborted_txs, check_msgset_size, readArrayLen,
+        discardString, readStringWith, discardInt32, readInt8, readInt16, readInt32, readInt64.
+      safe.
+    + intros h. destruct (snd h =? off).
+      * apply safe_bind; [apply safe_discard_remaining|]. intros _.
+        destruct acts; [apply safe_ret|apply safe_fail; reflexivity].
+      * apply safe_bind; [apply safe_next_header|]. intros m.
+        apply safe_bind; [apply safe_run_acts|]. intros r.
+        apply safe_bind; [apply safe_discard_remaining|]. intros _. apply safe_ret.
 Qed.
 
 (* ---- readers that can never produce a kafka.Error ---- *)
@@ -154,12 +229,65 @@ Proof.
 Qed.
 Lemma nk_discard_remaining : nk discard_remaining.
 Proof. unfold discard_remaining. apply nk_bind; [apply nk_get_sz|]. intros n. apply nk_discardN. Qed.
+Ltac nk_step :=
+  first [ apply nk_ret | apply nk_fail; reflexivity | apply nk_get_sz | apply nk_read_int
+        | apply nk_discardN | apply nk_readNewBytes | apply nk_guard_short
+        | apply nk_bind; [|intros ?]
+        | match goal with |- nk (if ?b then _ else _) => destruct b end ].
+Lemma nk_next_header : nk next_header.
+Proof. unfold next_header, readInt8, readInt16, readInt32, readInt64. repeat nk_step. Qed.
 Lemma nk_msg_header : nk msg_header.
+Proof. unfold msg_header. apply nk_bind; [apply nk_next_header|]. intros m. apply nk_ret. Qed.
+Lemma nk_varint_scan : forall s sz shift acc e sz' s',
+  varint_scan s sz shift acc = (inr e, sz', s') -> is_kafka e = false.
 Proof.
-  unfold msg_header.
-  repeat first [ apply nk_bind; [apply nk_read_int|intros ?] | apply nk_ret
-               | apply nk_fail; reflexivity
-               | match goal with |- nk (if ?b then _ else _) => destruct b end ].
+  induction s as [|b t IH]; intros sz shift acc e sz' s' H; cbn [varint_scan] in H;
+    destruct (sz <? 0); try (inversion H; reflexivity);
+    destruct (sz =? 0); try (inversion H; reflexivity).
+  destruct (b <? 128)%N; [inversion H|]. eapply IH; exact H.
+Qed.
+Lemma nk_readVarInt : nk readVarInt.
+Proof.
+  intros sz s e sz' s' H. unfold readVarInt in H.
+  destruct (varint_scan s sz 0 0) as [[[x|e0] sz0] s0] eqn:E; inversion H; subst.
+  eapply nk_varint_scan; exact E.
+Qed.
+Lemma nk_try_short A (p : P A) : nk p -> nk (try_short p).
+Proof.
+  intros Hp sz s e sz' s' H. unfold try_short in H.
+  destruct (p sz s) as [[[a|e0] sz1] s1] eqn:E; [inversion H|].
+  pose proof (Hp _ _ _ _ _ E) as Hk.
+  destruct e0; try (inversion H; subst; exact Hk).
+  destruct (discardN sz1 sz1 s1) as [[[u|e1] sz2] s2] eqn:Ed; inversion H; subst.
+  eapply nk_discardN; exact Ed.
+Qed.
+Lemma nk_readBytesWith A (cb : Z -> P A) : (forall n, nk (cb n)) -> nk (readBytesWith cb).
+Proof.
+  intros H. unfold readBytesWith, readArrayLen, readInt32.
+  apply nk_bind; [apply nk_read_int|]. intros n. apply nk_bind; [apply nk_guard_short|]. intros _. apply H.
+Qed.
+Lemma nk_read_one K V (key : Z -> P K) (val : Z -> P V) min m :
+  (forall n, nk (key n)) -> (forall n, nk (val n)) -> nk (read_one key val min m).
+Proof.
+  intros Hk Hv. unfold read_one, read_header, read_v1, read_v2, record_header, readInt8.
+  repeat first [ apply Hk | apply Hv | apply nk_next_header | apply nk_readVarInt
+               | apply nk_readBytesWith; intros ? | apply nk_rep | nk_step ].
+Qed.
+Lemma nk_read_key_cb n : nk (read_key_cb n).
+Proof. unfold read_key_cb. repeat nk_step. Qed.
+Lemma nk_read_val_cb c n : nk (read_val_cb c n).
+Proof. unfold read_val_cb. repeat nk_step. Qed.
+Lemma nk_run_acts acts : forall m boff outs, nk (run_acts acts m boff outs).
+Proof.
+  induction acts as [|a rest IH]; intros m boff outs; cbn [run_acts]; [apply nk_ret|].
+  destruct (a <? 0).
+  - apply nk_bind.
+    + apply nk_try_short. apply nk_read_one; intros; apply nk_readNewBytes.
+    + intros [[[[m' off] k] v]|]; [apply IH|apply nk_ret].
+  - apply nk_bind.
+    + apply nk_try_short. apply nk_read_one; intros; [apply nk_read_key_cb|apply nk_read_val_cb].
+    + intros [[[[m' off] k] [n b]]|]; [|apply nk_ret].
+      destruct (a <? n); [apply nk_ret|apply IH].
 Qed.
 Lemma nk_op_read a v off : schema_api a = true -> nk (op_read a v off).
 Proof.
@@ -245,6 +373,24 @@ Proof.
     + inversion H; subst. destruct e0; try contradiction. eapply skip_kafka_zero; exact Eh.
   - (* list-offsets *) destruct r as [x|e]; [eapply expectZeroSize_inl; exact H|].
     destruct e; try contradiction.
+  - (* fetch with Read / ReadMessage actions *) unfold fetch_reads, bind in H.
+    destruct (skipRemainingOnKafkaError (fetch_header v) sz s) as [[[h|e0] sz1] s1] eqn:Eh.
+    + destruct (snd h =? off).
+      * destruct (discard_remaining sz1 s1) as [[[u|e1] sz2] s2] eqn:Ed.
+        -- destruct acts; inversion H; subst; [eapply discard_remaining_zero; exact Ed|contradiction].
+        -- inversion H; subst. destruct e1; try contradiction.
+           pose proof (nk_discard_remaining _ _ _ _ _ Ed) as Hk. discriminate Hk.
+      * destruct (next_header sz1 s1) as [[[m|e1] sz2] s2] eqn:Em.
+        -- destruct (run_acts acts m off [] sz2 s2) as [[[rv|e2] sz3] s3] eqn:Er.
+           ++ destruct (discard_remaining sz3 s3) as [[[u|e3] sz4] s4] eqn:Ed.
+              ** inversion H; subst. eapply discard_remaining_zero; exact Ed.
+              ** inversion H; subst. destruct e3; try contradiction.
+                 pose proof (nk_discard_remaining _ _ _ _ _ Ed) as Hk. discriminate Hk.
+           ++ inversion H; subst. destruct e2; try contradiction.
+              pose proof (nk_run_acts _ _ _ _ _ _ _ _ _ Er) as Hk. discriminate Hk.
+        -- inversion H; subst. destruct e1; try contradiction.
+           pose proof (nk_next_header _ _ _ _ _ Em) as Hk. discriminate Hk.
+    + inversion H; subst. destruct e0; try contradiction. eapply skip_kafka_zero; exact Eh.
 Qed.
 
 Lemma op_read_exact a v off size s r sz' s' :
@@ -282,7 +428,7 @@ Lemma conn_do_unfold st o s :
   closed st = false ->
   conn_do st o s =
     let a := op_api o in
-    let off := match a with AFetch => op_off o | _ => offset st end in
+    let off := op_offset st o in
     let st1 := mkConn false (wrap32 (corr st + 1)) (cfg_topic st) off in
     match wait_response (wrap32 (corr st + 1)) s with
     | (inr e, s', cl) => (set_closed st1 cl, RErr (map_err a e), s')
@@ -319,7 +465,7 @@ Proof.
   2:{ inversion H; subst r. apply wait_response_inr in Ew as [_ [[He _]|[He _]]]; subst e;
       destruct (op_api o); cbn in Hr; contradiction. }
   apply wait_response_inl in Ew as (Hlen & Hsize & Hs1 & _ & _).
-  set (off := match op_api o with AFetch => op_off o | _ => offset st end) in *.
+  set (off := op_offset st o) in *.
   destruct (op_read (op_api o) (op_ver o) off size s1) as [[ra sz1] s2] eqn:Er.
   assert (Hexact : match ra with inl _ => True | inr (EKafka _) => op_api o <> AListOffsets | _ => False end ->
                    consumed_frame s s2).
@@ -462,7 +608,7 @@ Theorem conn_do_cut st o s st' r s' k :
 Proof.
   intros Hcl H Hk.
   rewrite conn_do_unfold in H by assumption. rewrite conn_do_unfold by assumption. cbv zeta in *.
-  set (off := match op_api o with AFetch => op_off o | _ => offset st end) in *.
+  set (off := op_offset st o) in *.
   destruct (wait_response (wrap32 (corr st + 1)) s) as [[[size|e0] s1] cl] eqn:Ew.
   2:{ apply wait_response_inr in Ew as [Hs1 _]. subst s1. inversion H; subst. lia. }
   pose proof Ew as Ew'. apply wait_response_inl in Ew' as (Hlen & _ & Hs1 & _ & _).
@@ -510,7 +656,7 @@ Theorem conn_do_cut_beyond st o s st' r s' k :
 Proof.
   intros Hcl Hk8 H Hfull Hk.
   rewrite conn_do_unfold in H by assumption. rewrite conn_do_unfold by assumption. cbv zeta in *.
-  set (off := match op_api o with AFetch => op_off o | _ => offset st end) in *.
+  set (off := op_offset st o) in *.
   destruct (wait_response (wrap32 (corr st + 1)) s) as [[[size|e0] s1] cl] eqn:Ew.
   2:{ destruct (wait_response_cut_inr _ _ _ _ _ _ Ew Hk8) as (s2 & E2). rewrite E2.
       inversion H; subst. eexists. reflexivity. }
